@@ -1041,7 +1041,7 @@ pub fn main(args: &Args) -> ! {
     let mut rep = Report::new("C03", args, "fault_enumeration");
     let thorough = args.tier == Tier::Thorough;
     let dl = deadline(if thorough { 1500 } else { 50 });
-    rep.rule = "E3 over hostile input delivered to unmodified real endpoints. (b) A puppet peer (the harness, holding the model-TLS keys) replaces one side once an honest pair reached a chosen state and sends correctly protected packets carrying every single hostile frame of an alphabet (all frame types with boundary field values, malformed encodings, unknown types) in Initial / Handshake / 1-RTT space, every ordered pair of frames in 1-RTT (thorough: every ordered triple whose first two frames are individually harmless), and 1000-fold repetitions of the resource-consuming frames, against client and server victims in the states handshaking, established, mid-transfer and locally closed and the local configurations default / ack-frequency / zero-length CIDs / datagrams off / tiny limits. Oracle: no panic, bounded steps, bounded live heap, outcome is either 'unaffected' or a transport error whose code is in the set RFC 9000 prescribes or permits for that frame (harness table), the CONNECTION_CLOSE on the wire carries the same code, and a bystander connection on the same endpoint completes its transfer. (c) Every transport-parameter edit of a list (each integer parameter at 0/1/boundaries/2^62-1, absent, duplicated, wrong length, empty; CID echo parameters absent/wrong/unexpected; server-only parameters; unknown ids; truncation at every byte) in both directions: TRANSPORT_PARAMETER_ERROR iff the harness's own RFC validation rejects the encoding, never a panic. (a) byte-level mutations of genuine datagrams are enumerated under C04 with the same no-panic oracle plus arbitrary short byte strings here. Non-trivial = input was delivered to a live victim; distinct = distinct (victim, state, configuration, input) tuples.".into();
+    rep.rule = "E3 over hostile input delivered to unmodified real endpoints. (b) A puppet peer (the harness, holding the model-TLS keys) replaces one side once an honest pair reached a chosen state and sends correctly protected packets carrying every single hostile frame of an alphabet (all frame types with boundary field values, malformed encodings, unknown types) in Initial / Handshake / 1-RTT space, every ordered pair of frames in 1-RTT (thorough: every ordered triple whose first two frames are individually harmless), and 1000-fold repetitions of the resource-consuming frames, against client and server victims in the states handshaking, established, mid-transfer and locally closed and the local configurations default / ack-frequency / zero-length CIDs / datagrams off / tiny limits. Oracle: no panic, bounded steps, bounded live heap, outcome is either 'unaffected' or a transport error whose code is in the set RFC 9000 prescribes or permits for that frame (harness table), the CONNECTION_CLOSE on the wire carries the same code, and a bystander connection on the same endpoint completes its transfer. (c) Every transport-parameter edit of a list (each integer parameter at 0/1/boundaries/2^62-1, absent, duplicated, wrong length, empty; CID echo parameters absent/wrong/unexpected; server-only parameters; unknown ids; truncation at every byte) in both directions: TRANSPORT_PARAMETER_ERROR iff the harness's own RFC validation rejects the encoding, never a panic. (a) arbitrary short byte strings; the handshake datagrams damaged in transit (original lost, mutated copy arrives, the sender retransmits into whatever state was left behind) under the no-panic oracle; further byte-level mutations of genuine datagrams are enumerated under C04. Non-trivial = input was delivered to a live victim; distinct = distinct (victim, state, configuration, input) tuples.".into();
 
     // (a) arbitrary short strings and first-byte x length sweep at both roles
     {
@@ -1213,6 +1213,17 @@ pub fn main(args: &Args) -> ! {
     if killed == 0 {
         machinery("vacuity guard: no hostile frame ever terminated a connection — the puppet's packets are not being accepted");
     }
+    // (a2) handshake datagrams damaged in transit: whatever state a damaged first flight leaves behind
+    // in the endpoint (half-created attempts, routing entries) must survive the retransmission
+    {
+        let (n, panics, capped) = crate::checks::c04::damaged_handshake_panics(base, thorough, dl);
+        rep.evaluations += n;
+        rep.exhaustive &= !capped;
+        for (what, replay) in panics {
+            rep.violation(Violation { signature: "panic:damaged-handshake-datagram".into(), what, replay });
+        }
+        rep.part("damaged_handshake_datagrams", json!({"cases": n, "capped": capped}));
+    }
     // repetitions, sequential so that the heap counter is meaningful
     let mut rep_cases = 0;
     for vs in [true, false] {
@@ -1332,6 +1343,7 @@ fn replay(args: &Args) -> ! {
     };
     let base = Instant::now();
     match r["kind"].as_str().unwrap_or("") {
+        "replace" => crate::checks::c04::replay(args),
         "frames" => {
             let vs = r["vs"].as_bool().unwrap();
             let l = parse_l(r["cfg"].as_str().unwrap_or(""));
